@@ -4,6 +4,7 @@
 package main
 
 import (
+	"runtime"
 	"context"
 	"encoding/binary"
 	"errors"
@@ -14,8 +15,9 @@ import (
 
 	"github.com/attestantio/go-eth2-client/api"
 	apiv1 "github.com/attestantio/go-eth2-client/api/v1"
+	"github.com/attestantio/go-eth2-client/spec"
+	"github.com/attestantio/go-eth2-client/spec/altair"
 	"github.com/attestantio/go-eth2-client/spec/phase0"
-	"github.com/attestantio/vouch/mock"
 	cache "github.com/attestantio/vouch/services/cache/standard"
 	nullmetrics "github.com/attestantio/vouch/services/metrics/null"
 	"github.com/rs/zerolog"
@@ -23,10 +25,46 @@ import (
 )
 
 type headers struct {
-	mu    sync.Mutex
-	truth map[phase0.Root]phase0.Slot
-	fail  map[phase0.Root]bool // fail the next fetch of this root
-	calls atomic.Int64
+	mu     sync.Mutex
+	truth  map[phase0.Root]phase0.Slot
+	parent map[phase0.Root]phase0.Root
+	fail   map[phase0.Root]int // how the next fetch of this root fails (0 = succeeds)
+	calls  atomic.Int64
+}
+
+// failure kinds a client library can deliver
+func failure(kind int) error {
+	switch kind {
+	case 1:
+		return errors.New("scripted fetch failure")
+	case 2:
+		return &api.Error{Method: "GET", Endpoint: "/eth/v1/beacon/headers", StatusCode: 404, Data: []byte(`{"code":404,"message":"NOT_FOUND"}`)}
+	case 3:
+		return fmt.Errorf("failed to request beacon block header: %w", &api.Error{Method: "GET", StatusCode: 404})
+	case 4:
+		return &api.Error{Method: "GET", StatusCode: 503}
+	default:
+		return context.DeadlineExceeded
+	}
+}
+
+// SignedBeaconBlock serves the block of a root (for head events), in a version that depends on the root.
+func (h *headers) SignedBeaconBlock(_ context.Context, opts *api.SignedBeaconBlockOpts) (*api.Response[*spec.VersionedSignedBeaconBlock], error) {
+	h.mu.Lock()
+	defer h.mu.Unlock()
+	for r, s := range h.truth {
+		if r.String() != opts.Block {
+			continue
+		}
+		var blk *spec.VersionedSignedBeaconBlock
+		if r[31]%2 == 0 {
+			blk = &spec.VersionedSignedBeaconBlock{Version: spec.DataVersionPhase0, Phase0: &phase0.SignedBeaconBlock{Message: &phase0.BeaconBlock{Slot: s, ParentRoot: h.parent[r], Body: &phase0.BeaconBlockBody{ETH1Data: &phase0.ETH1Data{}}}}}
+		} else {
+			blk = &spec.VersionedSignedBeaconBlock{Version: spec.DataVersionAltair, Altair: &altair.SignedBeaconBlock{Message: &altair.BeaconBlock{Slot: s, ParentRoot: h.parent[r], Body: &altair.BeaconBlockBody{ETH1Data: &phase0.ETH1Data{}}}}}
+		}
+		return &api.Response[*spec.VersionedSignedBeaconBlock]{Data: blk, Metadata: map[string]any{}}, nil
+	}
+	return nil, errors.New("404 block not found")
 }
 
 func (h *headers) BeaconBlockHeader(_ context.Context, opts *api.BeaconBlockHeaderOpts) (*api.Response[*apiv1.BeaconBlockHeader], error) {
@@ -35,8 +73,8 @@ func (h *headers) BeaconBlockHeader(_ context.Context, opts *api.BeaconBlockHead
 	defer h.mu.Unlock()
 	for r, s := range h.truth {
 		if r.String() == opts.Block {
-			if h.fail[r] {
-				return nil, errors.New("scripted fetch failure")
+			if k := h.fail[r]; k != 0 {
+				return nil, failure(k)
 			}
 			return &api.Response[*apiv1.BeaconBlockHeader]{Data: &apiv1.BeaconBlockHeader{
 				Root: r, Canonical: true,
@@ -70,7 +108,7 @@ func newService(clock *harness.VClock, h *headers) (*cache.Service, *harness.Cap
 		cache.WithChainTime(clock),
 		cache.WithScheduler(sched),
 		cache.WithEventsProvider(ev),
-		cache.WithSignedBeaconBlockProvider(mock.NewErroringSignedBeaconBlockProvider()),
+		cache.WithSignedBeaconBlockProvider(h),
 		cache.WithBeaconBlockHeadersProvider(h),
 	)
 	return s, sched, ev, err
@@ -87,7 +125,7 @@ func sequential(c *harness.Ctx) {
 			r := c.Rand("seq", i)
 			spe := uint64(1 + r.Intn(32))
 			clock := harness.NewVClock(12e9, spe)
-			h := &headers{truth: map[phase0.Root]phase0.Slot{}, fail: map[phase0.Root]bool{}}
+			h := &headers{truth: map[phase0.Root]phase0.Slot{}, parent: map[phase0.Root]phase0.Root{}, fail: map[phase0.Root]int{}}
 			s, sched, ev, err := newService(clock, h)
 			if err != nil {
 				c.Inconclusive("cache.New failed: " + err.Error())
@@ -106,6 +144,14 @@ func sequential(c *harness.Ctx) {
 					slot = 0
 				}
 				h.truth[mkRoot(k)] = slot
+			}
+			// parent of each root: a known root with a lower slot where one exists (slots in between are skipped)
+			for k := uint64(0); k < nRoots; k++ {
+				for j := uint64(0); j < nRoots; j++ {
+					if h.truth[mkRoot(j)] < h.truth[mkRoot(k)] {
+						h.parent[mkRoot(k)] = mkRoot(j)
+					}
+				}
 			}
 			unknown := mkRoot(1000)
 			cached := map[phase0.Root]bool{} // reference: entries that must be present
@@ -126,71 +172,81 @@ func sequential(c *harness.Ctx) {
 					delete(maybe, root)
 					hist = append(hist, op{Op: "block", Root: k, Slot: uint64(h.truth[root])})
 				case x < 7: // lookup
-					failing := r.Intn(4) == 0
+					failKind := 0
+					if r.Intn(4) == 0 {
+						failKind = 1 + r.Intn(5)
+					}
 					target := root
 					if r.Intn(10) == 0 {
 						target = unknown
 						k = 1000
 					}
 					h.mu.Lock()
-					h.fail[target] = failing
+					h.fail[target] = failKind
 					h.mu.Unlock()
 					before := h.calls.Load()
 					got, err := s.BlockRootToSlot(ctx, target)
 					fetched := h.calls.Load() - before
 					o := op{Op: "lookup", Root: k}
 					want, known := h.truth[target]
-					switch {
-					case cached[target]:
-						classes["hit"] = true
+					if fetched == 0 {
+						// answered from the cache (from whatever source the entry came)
 						o.Res = fmt.Sprintf("hit->%d,%v", got, err)
 						hist = append(hist, o)
-						if err != nil || got != want {
-							bad("hit-wrong", fmt.Sprintf("cached root returned (%d,%v), block's slot is %d", got, err, want))
-						}
-						if fetched != 0 {
-							bad("retained-refetched", "an entry that had to be retained was fetched again")
-						}
-					default:
-						if maybe[target] && fetched == 0 {
-							// cleaning kept an entry it was allowed to drop
+						switch {
+						case cached[target]:
+							classes["hit"] = true
+						case maybe[target]:
 							classes["kept-old"] = true
-							delete(maybe, target)
-							cached[target] = true
-							o.Res = fmt.Sprintf("hit(old)->%d,%v", got, err)
-							hist = append(hist, o)
-							if err != nil || got != want {
-								bad("hit-wrong", fmt.Sprintf("cached root returned (%d,%v), block's slot is %d", got, err, want))
-							}
-							break
+						default:
+							classes["hit-unmodelled-entry"] = true
 						}
-						if maybe[target] {
-							classes["cleaned-observed"] = true
-							c.Count("cleaned_entries_observed", 1)
-						}
-						delete(maybe, target)
-						if failing || !known {
-							classes["miss-fail"] = true
-							o.Res = fmt.Sprintf("miss-fail->%d,%v", got, err)
-							hist = append(hist, o)
+						if !known {
 							if err == nil {
-								bad("failed-fetch-gives-slot", fmt.Sprintf("fetch failed but lookup returned slot %d without error", got))
+								bad("unknown-root-gives-slot", fmt.Sprintf("root no node knows returned slot %d without error and without a fetch", got))
 							}
-						} else {
-							classes["miss-ok"] = true
-							o.Res = fmt.Sprintf("miss->%d,%v", got, err)
-							hist = append(hist, o)
-							if err != nil {
-								bad("miss-error", "fetch succeeded but lookup returned error "+err.Error())
-							} else if got != want {
-								bad("miss-wrong-slot", fmt.Sprintf("lookup through fetch returned %d, block's slot is %d", got, want))
-							}
-							if fetched != 1 {
-								bad("miss-fetch-count", fmt.Sprintf("miss issued %d fetches", fetched))
-							}
-							cached[target] = true
+						} else if err != nil || got != want {
+							bad("hit-wrong", fmt.Sprintf("lookup answered without a fetch returned (%d,%v), block's slot is %d", got, err, want))
 						}
+						if known {
+							cached[target] = true
+							delete(maybe, target)
+						}
+						break
 					}
+					if cached[target] {
+						bad("retained-refetched", "an entry that had to be retained was fetched again")
+					}
+					if maybe[target] {
+						classes["cleaned-observed"] = true
+						c.Count("cleaned_entries_observed", 1)
+					}
+					delete(maybe, target)
+					if failKind != 0 || !known {
+						classes[fmt.Sprintf("miss-fail-%d", failKind)] = true
+						o.Res = fmt.Sprintf("miss-fail(kind %d)->%d,%v", failKind, got, err)
+						hist = append(hist, o)
+						if err == nil {
+							bad(fmt.Sprintf("failed-fetch-gives-slot:kind%d", failKind), fmt.Sprintf("fetch failed (%v) but lookup returned slot %d without error", failure(failKind), got))
+						}
+					} else {
+						classes["miss-ok"] = true
+						o.Res = fmt.Sprintf("miss->%d,%v", got, err)
+						hist = append(hist, o)
+						if err != nil {
+							bad("miss-error", "fetch succeeded but lookup returned error "+err.Error())
+						} else if got != want {
+							bad("miss-wrong-slot", fmt.Sprintf("lookup through fetch returned %d, block's slot is %d", got, want))
+						}
+						if fetched != 1 {
+							bad("miss-fetch-count", fmt.Sprintf("miss issued %d fetches", fetched))
+						}
+						cached[target] = true
+					}
+				case x < 8: // head event for a block whose parent is another known root (slots may be skipped in between)
+					ev.Emit("head", &apiv1.HeadEvent{Slot: h.truth[root], Block: root})
+					hist = append(hist, op{Op: "head", Root: k, Slot: uint64(h.truth[root])})
+					classes["head"] = true
 				default: // clean at some epoch
 					e := uint64(r.Intn(int(maxEpoch + 80)))
 					clock.SetSlot(phase0.Slot(e*spe + uint64(r.Intn(int(spe)))))
@@ -246,7 +302,7 @@ func concurrent(c *harness.Ctx) {
 			r := c.Rand("conc", i)
 			spe := uint64(8)
 			clock := harness.NewVClock(12e9, spe)
-			h := &headers{truth: map[phase0.Root]phase0.Slot{}, fail: map[phase0.Root]bool{}}
+			h := &headers{truth: map[phase0.Root]phase0.Slot{}, parent: map[phase0.Root]phase0.Root{}, fail: map[phase0.Root]int{}}
 			s, sched, ev, err := newService(clock, h)
 			if err != nil {
 				c.Inconclusive("cache.New failed")
@@ -301,6 +357,65 @@ func concurrent(c *harness.Ctx) {
 	}
 }
 
+
+// cleanRace: block events for fresh roots arrive while a clean is scanning a large map of stale entries; every
+// fresh entry is inside the retention window and must still be cached afterwards (the provider fails every fetch,
+// so a lost entry shows up as an error).
+func cleanRace(c *harness.Ctx) {
+	rounds := c.N(12, 300)
+	ctx := context.Background()
+	c.Case("cleanrace", func() {
+		spe := uint64(8)
+		clock := harness.NewVClock(12e9, spe)
+		h := &headers{truth: map[phase0.Root]phase0.Slot{}, parent: map[phase0.Root]phase0.Root{}, fail: map[phase0.Root]int{}}
+		s, sched, ev, err := newService(clock, h)
+		if err != nil {
+			c.Inconclusive("cache.New failed")
+			return
+		}
+		curEpoch := uint64(200)
+		clock.SetSlot(phase0.Slot(curEpoch * spe))
+		n := uint64(0)
+		lost := 0
+		total := 0
+		for rd := 0; rd < rounds; rd++ {
+			for k := 0; k < 20000; k++ { // stale entries (older than 64 epochs)
+				n++
+				ev.Emit("block", &apiv1.BlockEvent{Slot: phase0.Slot(n % (100 * spe)), Block: mkRoot(1_000_000 + n)})
+			}
+			fresh := make([]phase0.Root, 150)
+			for k := range fresh {
+				n++
+				fresh[k] = mkRoot(1_000_000 + n)
+			}
+			var wg sync.WaitGroup
+			wg.Add(2)
+			go func() { defer wg.Done(); sched.RunSync(cleanJob) }()
+			go func() {
+				defer wg.Done()
+				for _, rt := range fresh {
+					ev.Emit("block", &apiv1.BlockEvent{Slot: phase0.Slot(curEpoch*spe - 1), Block: rt})
+					runtime.Gosched()
+				}
+			}()
+			wg.Wait()
+			for _, rt := range fresh {
+				total++
+				got, err := s.BlockRootToSlot(ctx, rt)
+				if err != nil || got != phase0.Slot(curEpoch*spe-1) {
+					lost++
+				}
+			}
+		}
+		c.Count("cleanrace_fresh_entries_checked", int64(total))
+		c.Eval(total)
+		if lost > 0 {
+			c.Violate("clean-removed-fresh-entry", fmt.Sprintf("%d of %d entries inside the retention window, inserted while a clean was running, were gone afterwards", lost, total), "cleanrace", nil)
+		}
+		c.Distinct("cleanrace")
+	})
+}
+
 func main() {
 	harness.Main(&harness.Spec{
 		Property: "C18",
@@ -309,6 +424,7 @@ func main() {
 		Run: func(c *harness.Ctx) {
 			sequential(c)
 			concurrent(c)
+			cleanRace(c)
 		},
 		MinDistinct: 20,
 		Assumptions: []string{"a root identifies one block, so block events and headers agree on its slot", "cleaning is only required not to remove entries inside the 64-epoch window; removal of older entries is observed, not required"},
